@@ -99,6 +99,11 @@ func (t *Tape) Draw(n int) int {
 // Bool draws true with probability num/den.
 func (t *Tape) Bool(num, den int) bool { return t.Draw(den) < num }
 
+// TraceHook, when set, is called by the scheduler goroutine for every step
+// with the thread it releases and the site that thread is parked at (debugging
+// aid for determinism hunts: diff the traces of two executions of one seed).
+var TraceHook func(step int, thread string, site int32)
+
 // Config of one simulated run.
 type Config struct {
 	Seed     uint64
@@ -1075,6 +1080,9 @@ func Run(cfg Config, main func()) *Sim {
 		s.lastSite = t.site
 		s.recent[s.recentN%len(s.recent)] = fmt.Sprintf("%s@%d", t.idStr, t.site)
 		s.recentN++
+		if TraceHook != nil {
+			TraceHook(s.Steps, t.idStr, t.site)
+		}
 		s.Steps++
 		s.mu.Lock()
 		t.st = stRunning
